@@ -103,6 +103,7 @@ class Runtime:
         self.info = {}  # uri -> {"imports": {name: uri}, "defs": set}
         self.UNDEFINED = RefUndefined()
         self.plain = None
+        self.missing = None
 
     # output
     def write(self, s):
@@ -131,19 +132,27 @@ class Runtime:
         fn = self.mods[uri]["__def_" + name]
         return lambda *a, **k: fn(view(), *a, **k)
 
-    def resolve(self, uri, name, ctx):
+    def resolve_all(self, uri, names, ctx):
         imp = self.info[uri]["imports"]
-        if name in imp:
-            fn = self.mods[imp[name]]["__def_" + name]
-            plain = self.plain
-            return lambda *a, **k: fn(plain, *a, **k)
-        if name in ctx._d:
-            return ctx._d[name]
-        if name in builtins.__dict__:
-            return builtins.__dict__[name]
-        if self.strict:
-            raise NameError("'%s' is not defined" % name)
-        return self.UNDEFINED
+        out = []
+        missing = []
+        for name in names:
+            if name in imp:
+                fn = self.mods[imp[name]]["__def_" + name]
+                plain = self.plain
+                out.append(lambda *a, __fn=fn, __p=plain, **k: __fn(__p, *a, **k))
+            elif name in ctx._d:
+                out.append(ctx._d[name])
+            elif name in builtins.__dict__:
+                out.append(builtins.__dict__[name])
+            else:
+                missing.append(name)
+                out.append(self.UNDEFINED)
+        if missing and self.strict:
+            # which of several missing names is reported is not fixed: all are recorded
+            self.missing = missing
+            raise NameError("'%s' is not defined" % missing[0])
+        return out
 
 
 # --------------------------------------------------------------------------
@@ -200,14 +209,16 @@ class _FileGen:
     def prologue(self, fname, is_body=False):
         e = self.e
         names = (self.pro or {}).get(fname, [])
+        plain = [n for n in names if n not in self.topdefs]
         for n in names:
             if n in self.topdefs:
                 if is_body:
                     e.w("%s = __rt.stub_overlay(%r, %r, __view)" % (n, self.uri, n))
                 else:
                     e.w("%s = __rt.stub(%r, %r, context)" % (n, self.uri, n))
-            else:
-                e.w("%s = __rt.resolve(%r, %r, context)" % (n, self.uri, n))
+        if plain:
+            # all free names of the callable are fetched together, on entry
+            e.w("[%s] = __rt.resolve_all(%r, %r, context)" % (", ".join(plain), self.uri, plain))
 
     def stmts(self, stmts, scope):
         """scope: {"top": bool (statements directly in the file body: defs are top-level defs)}"""
@@ -408,6 +419,8 @@ def run(prog, ctx, strict=False):
         data["self"] = data["local"] = _Namespace(rt, rt.mods[main], plain)
         rt.mods[main]["__body"](plain, **ctx)
     except Exception as e:  # noqa
+        if rt.missing is not None and type(e) is NameError and str(e) == "'%s' is not defined" % rt.missing[0]:
+            return ("exc", "NameError", str(e), list(rt.missing))
         return ("exc", type(e).__name__, str(e))
     return ("out", "".join(rt.buf))
 
